@@ -125,6 +125,7 @@ func genCoordCase(t *rapid.T) CoordCase {
 var (
 	coordOnce  sync.Once
 	coordEpoch uint64 = 10 // conf_ver of the next round of region heartbeats (per process, only has to grow)
+	coordMovers []schedule.Scheduler
 )
 
 func coordSetup(fx *livesrv.Fixture) {
@@ -264,16 +265,18 @@ func runCoordCase(c CoordCase) (vkit.Info, error) {
 		livesrv.Fatal("C11 coord: " + err.Error())
 	}
 
-	// leader movers over the live cluster, with their own (empty) operator controller
-	oc := schedule.NewOperatorController(fx.Svr.Context(), rc, nil)
-	var movers []schedule.Scheduler
-	for _, typ := range []string{"shuffle-leader", "balance-leader"} {
-		s, err := schedule.CreateScheduler(typ, oc, core.NewStorage(kv.NewMemoryKV()), schedule.ConfigSliceDecoder(typ, []string{"", ""}))
-		if err != nil {
-			return info, fmt.Errorf("fixture: CreateScheduler(%s): %v", typ, err)
+	// leader movers over the live cluster, with their own (empty) operator controller; once per process
+	if coordMovers == nil {
+		oc := schedule.NewOperatorController(fx.Svr.Context(), rc, nil)
+		for _, typ := range []string{"shuffle-leader", "balance-leader"} {
+			s, err := schedule.CreateScheduler(typ, oc, core.NewStorage(kv.NewMemoryKV()), schedule.ConfigSliceDecoder(typ, []string{"", ""}))
+			if err != nil {
+				livesrv.Fatal(fmt.Sprintf("C11 coord: CreateScheduler(%s): %v", typ, err))
+			}
+			coordMovers = append(coordMovers, s)
 		}
-		movers = append(movers, s)
 	}
+	movers := coordMovers
 
 	refused, accepted, clash, transfers := 0, 0, 0, 0
 	for i, op := range c.Ops {
